@@ -65,6 +65,10 @@ func epsFor(c *Case) (cl, sv scen.EP) {
 	}
 	cl.CID, sv.CID = c.CIDC, c.CIDS
 	cl.SRTP, sv.SRTP = c.SRTP, c.SRTP
+	if len(c.SRTP) > 0 {
+		// a master key identifier as well: each side then holds the peer's, which an export has to carry
+		cl.MKI, sv.MKI = []byte{0xa1, 0xb2, 0xc3, 0xd4}, []byte{0xa1, 0xb2, 0xc3, 0xd4}
+	}
 	cl.ALPN, sv.ALPN = c.ALPN, c.ALPN
 	cl.EMS, sv.EMS = c.EMS, c.EMS
 	if c.CCert && !pskSuites[c.Suite] {
